@@ -282,6 +282,13 @@ func checkC08(c *hx.Ctx) {
 			alter("suffixData.recoveryCommitment removed", func(m map[string]interface{}) { delete(sd(m), "recoveryCommitment") }) &&
 			alter("suffixData.deltaHash removed", func(m map[string]interface{}) { delete(sd(m), "deltaHash") }) &&
 			alter("suffixData.anchorOrigin changed", func(m map[string]interface{}) { sd(m)["anchorOrigin"] = "other-origin-x" }) &&
+			alter("suffixData.anchorOrigin with blanks around it", func(m map[string]interface{}) {
+				if o, isString := sd(m)["anchorOrigin"].(string); isString {
+					sd(m)["anchorOrigin"] = hx.Pick(r, []string{o + " ", " " + o, o + "\n", "\t" + o + " "})
+				} else {
+					sd(m)["anchorOrigin"] = "other-origin-y "
+				}
+			}) &&
 			alter("suffixData.type added", func(m map[string]interface{}) { sd(m)["type"] = "zz" }) &&
 			alter("suffixData unknown member added", func(m map[string]interface{}) { sd(m)["foo"] = "bar" }) &&
 			alter("delta.updateCommitment changed", func(m map[string]interface{}) { dl(m)["updateCommitment"] = otherKey.Commitment(code) }) &&
